@@ -30,7 +30,7 @@
      first_byte, serve_req, after_head, finish_request, serve_iter
                             one iteration of the `for` loop in the order of the Go code
      serve_loop             the loop (fuel = iterations; OutOfFuel is a distinct result)
-     serve_conn             entry (ViaServe | ViaServeConn) x admission (Admit | RejectPerIP | RejectConcurrency)
+     serve_conn             entry (ViaServe | ViaServeConn) x admission (Admit | RejectPerIP | RejectConcurrency | Delegated)
                             + loop + what the caller does afterwards; fuel = S (stream length), proved
                             sufficient (Proof/ServeProof.v serve_conn_fuel_ok)
      hijack_in / hijack_late / ctx_released
@@ -494,7 +494,9 @@ Fixpoint serve_loop (fuel : nat) (s : lst) : list event * loop_end :=
 
 (* ---------- entry points ---------- *)
 Inductive entry := ViaServe | ViaServeConn.
-Inductive admission := Admit | RejectPerIP | RejectConcurrency.
+Inductive admission :=
+| Admit | RejectPerIP | RejectConcurrency
+| Delegated.   (* admitted, but serveConnCounted hands the conn to a NextProto handler (TLS ALPN) and returns *)
 
 Definition fast_resp : resp := {| r_kind := RkFast; r_status := StatusServiceUnavailable; r_conn := [strClose] |}.
 
@@ -521,6 +523,12 @@ Definition serve_conn_fuel (fuel : nat) (en : entry) (ad : admission) (rd : read
       match en with
       | ViaServe => [St StNew; Resp fast_resp; Flush; Close; St StClosed]   (* wp.Serve(c) == false *)
       | ViaServeConn => [Resp fast_resp; Flush; Close]                       (* tryAcquireConcurrency failed *)
+      end
+  | Delegated =>
+      (* getNextProto + `return handler(c)`: no request is served here; the caller closes and reports StateClosed *)
+      match en with
+      | ViaServe => [St StNew; Close; St StClosed]
+      | ViaServeConn => [St StNew; Close; St StClosed]
       end
   | Admit =>
       let (ev, r) := serve_loop fuel (lst_init rd) in
